@@ -12,7 +12,8 @@ TUS = {
     "quick": ["src/hp.cpp", "src/dhp.cpp", "test/unit/queue/msqueue_hp.cpp", "test/unit/queue/msqueue_dhp.cpp",
               "test/unit/tree/intrusive_ellenbintree_hp.cpp", "test/unit/tree/intrusive_ellenbintree_dhp.cpp"],
     "thorough": ["src/hp.cpp", "src/dhp.cpp", "test/unit/queue/*_hp.cpp", "test/unit/queue/*_dhp.cpp",
-                 "test/unit/list/*_hp.cpp", "test/unit/list/*_dhp.cpp", "test/unit/stack/*hp.cpp"],
+                 "test/unit/list/*_hp.cpp", "test/unit/list/*_dhp.cpp", "test/unit/stack/*hp.cpp",
+                 "test/unit/tree/intrusive_ellenbintree_hp.cpp", "test/unit/tree/intrusive_ellenbintree_dhp.cpp"],
 }
 EXPLANATION = (
     "Static, path-exhaustive obligations over the HP and DHP cores: every iteration of a scan loop performs exactly one of "
